@@ -6,8 +6,10 @@ from vk.specs import chain as S
 from vk.specs import universe as U
 from vk.specs import dyn as Dn
 
-LEVEL = "exploration"
-TECHNIQUE = ("runtime contracts from the variational theorem against exact diagonalisation of the sector-projected dense Hamiltonian (every reported energy is an "
+LEVEL = "other"
+TECHNIQUE = ("Engine S: the matrix diagonalised at every site / pair of sites (real Environ.GetLR + get_ham_direct, also with the omega target, and the preconditioner of the "
+             "iterative path) equals the projection J^H H J of the Hamiltonian onto the local tensor, as polynomials in all other tensor entries; "
+             "runtime contracts from the variational theorem against exact diagonalisation of the sector-projected dense Hamiltonian (every reported energy is an "
              "upper bound, exact at sufficient bond dimension, returned states normalised / in sector / consistent with the reported energy), chains and trees "
              "(bounded stand-in; optimiser convergence is outside any deductive verifier here)")
 KE = 1e-9
@@ -169,6 +171,8 @@ def check(run):
                         cases.append(("chain", name, n, method, nroots, M, s, run.tier))
             cases.append(("omega", name, n, s, run.tier))
     run_cases(run, worker, cases)
+    from props import C08_sym
+    C08_sym.prove(run)
     from props import C08_tree
     C08_tree.check(run)
     run.rule = ("small Hamiltonians with dense reference {spin+qn 4/6 sites, electron-phonon 4(6), spin 4, two-component qn} x 2 sectors x {1site, 2site} x "
